@@ -15,7 +15,7 @@ using namespace tulz;
 namespace {
 
 struct Cover {
-    uint64_t movedBeforeUse = 0, clampHistories = 0, clampCorrections = 0;
+    uint64_t movedBeforeUse = 0, clampHistories = 0, clampCorrections = 0, longLifeCycles = 0, throwingSubscriberRuns = 0, unsubscribeInCallbackRuns = 0;
     uint64_t histories = 0, ops = 0, changed = 0, unchanged = 0, calls = 0, subs = 0, unsubs = 0, nontrivialCases = 0, eqEqualButDifferent = 0;
     std::map<std::string, uint64_t> opCount, typeCount;
     std::vector<uint64_t> fps;
@@ -348,6 +348,127 @@ void runClampCase(uint64_t seed, int steps) {
     ++C.typeCount["int with a re-entrant clamping subscriber"];
 }
 
+
+// Fixed-answer scenarios for sizes and situations the random histories do not reach:
+// (0) one Observable lives through more than 2^16 / 2^17 subscriptions while a resident recorder stays subscribed;
+// (1) a subscriber that throws from its callback: the exception reaches the caller of the operation, and a recorder
+//     that was notified before it still holds the current value();
+// (2) a subscriber that unsubscribes a later one from inside its callback: the later one is not notified any more.
+void runSpecialCase(rt::Rng rng) {
+    using Obs = Observable<int>;
+    unsigned kind = (unsigned) rng.below(3);
+    char d[200];
+    struct Rec { int last = -1; int calls = 0; };
+    if (kind == 0) {
+        static const int64_t sizes[] = {65537, 66000, 70000, 131100, 140000};
+        int64_t n = rng.chance(400) ? (int64_t) rng.range(300, 3000) : sizes[rng.below(5)];
+        snprintf(d, sizeof d, "long life: %lld subscribe/unsubscribe cycles on one Observable<int> next to a resident recorder", (long long) n);
+        gHist = d;
+        Obs level{0};
+        Rec res, tmp;
+        auto resident = level.subscribe([&res](const int &v) { res.last = v; ++res.calls; });
+        int model = 0;
+        for (int64_t k = 0; k < n && !gCaseFailed; ++k) {
+            auto t = level.subscribe([&tmp](const int &v) { tmp.last = v; ++tmp.calls; });
+            bool look = k < 3 || (k & (k + 1)) == 0 || (k >= 65530 && k <= 65540) || (k >= 131066 && k <= 131076) || rng.chance(2);
+            if (look) {
+                res.calls = tmp.calls = 0;
+                level = ++model;
+                if (res.calls != 1 || tmp.calls != 1 || res.last != model || tmp.last != model) { fail("long-life-notification", "cycle", std::string(d) + ": at cycle " + std::to_string(k) + " a changing assignment notified the resident " + std::to_string(res.calls) + " and the newcomer " + std::to_string(tmp.calls) + " time(s)"); break; }
+            }
+            t.unsubscribe();
+            if (look || k + 1 == n) {
+                res.calls = tmp.calls = 0;
+                level += 1; ++model;
+                if (res.calls != 1 || tmp.calls != 0 || res.last != model || level.value() != model || !resident.isValid()) { fail("long-life-notification", "cycle", std::string(d) + ": after the newcomer of cycle " + std::to_string(k) + " unsubscribed, += notified the resident " + std::to_string(res.calls) + " time(s) (handle valid: " + std::to_string(resident.isValid()) + ")"); break; }
+            }
+        }
+        C.longLifeCycles += (uint64_t) n;
+        C.ops += (uint64_t) n;
+    } else if (kind == 1) {
+        struct Boom {};
+        Obs level{5};
+        Rec r1, r2;
+        bool armed = false;
+        auto s1 = level.subscribe([&r1](const int &v) { r1.last = v; ++r1.calls; });
+        auto st = level.subscribe([&armed](const int &) { if (armed) throw Boom{}; });
+        auto s2 = level.subscribe([&r2](const int &v) { r2.last = v; ++r2.calls; });
+        int model = 5;
+        gHist = "throwing subscriber between two recorders: ";
+        int steps = (int) rng.range(2, 10);
+        for (int k = 0; k < steps && !gCaseFailed; ++k) {
+            unsigned op = (unsigned) rng.below(8);
+            int x = (int) rng.range(2, 9);
+            armed = rng.chance(500);
+            static const char *names[] = {"=", "+=", "-=", "*=", "apply", "++", "--", "/="};
+            gHist += std::string(armed ? "!" : "") + names[op] + std::to_string(x) + " ";
+            int want = model;
+            bool caught = false;
+            r1.calls = r2.calls = 0;
+            try {
+                switch (op) {
+                    case 0: want = model + x; level = want; break;
+                    case 1: want = model + x; level += x; break;
+                    case 2: want = model - x; level -= x; break;
+                    case 3: want = model * 2; level *= 2; break;
+                    case 4: want = model + x * 3; level.apply([x](int &v) { v += x * 3; }); break;
+                    case 5: want = model + 1; ++level; break;
+                    case 6: want = model - 1; level--; break;
+                    default: want = model / 2 + 1000; level /= 2; level += 1000; break;   // two operations; the first may be a no-change
+                }
+            } catch (const Boom &) { caught = true; }
+            if (op == 7) {      // outcome depends on which of the two operations threw: resynchronise, judge only consistency
+                if (r1.calls && r1.last != level.value()) fail("recorder-out-of-date", "throwing-subscriber", "after an operation during which a later subscriber threw, the first recorder holds " + std::to_string(r1.last) + " but value() is " + std::to_string(level.value()) + " | " + gHist);
+                model = level.value();
+                if (std::abs(model) > 100000) { armed = false; level = 5; model = 5; }
+                continue;
+            }
+            bool notify = want != model || op == 5 || op == 6;   // a compound assignment that leaves the value unchanged notifies nobody
+            if (caught != (armed && notify)) { fail("exception-lost", "throwing-subscriber", std::string(armed ? "a subscriber threw but the operation returned normally" : "the operation threw although no subscriber did") + " | " + gHist); break; }
+            if (level.value() != want || r1.calls != (notify ? 1 : 0) || (notify && r1.last != want) || r2.calls != (notify && !armed ? 1 : 0))
+                fail(r1.last != level.value() ? "recorder-out-of-date" : "wrong-value", "throwing-subscriber", "operation " + std::string(names[op]) + " on " + std::to_string(model) + (armed ? " (a later subscriber threw)" : "") + ": value() = " + std::to_string(level.value()) +
+                     ", expected " + std::to_string(want) + "; the recorder subscribed first was called " + std::to_string(r1.calls) + " time(s) and holds " + std::to_string(r1.last) + "; the one subscribed last was called " + std::to_string(r2.calls) + " time(s) | " + gHist);
+            model = want;
+            if (std::abs(model) > 100000) { armed = false; level = 5; model = 5; }
+            ++C.ops;
+        }
+        ++C.throwingSubscriberRuns;
+    } else {
+        Obs level{0};
+        Rec ra, rb, rc;
+        bool armed = false;
+        unsigned victim = (unsigned) rng.below(2);   // 0: the one after the actor (not yet called), 1: the one before it (already called)
+        decltype(level.subscribe([](const int &) {})) hFirst, hLast;
+        hFirst = level.subscribe([&ra](const int &v) { ra.last = v; ++ra.calls; });
+        auto hActor = level.subscribe([&](const int &v) { rb.last = v; ++rb.calls; if (armed) { armed = false; (victim == 0 ? hLast : hFirst).unsubscribe(); } });
+        hLast = level.subscribe([&rc](const int &v) { rc.last = v; ++rc.calls; });
+        gHist = victim == 0 ? "a subscriber unsubscribes the one subscribed after it from inside its callback" : "a subscriber unsubscribes the one subscribed before it from inside its callback";
+        level = 1;
+        if (ra.calls != 1 || rb.calls != 1 || rc.calls != 1) fail("wrong-notification-count", "unsubscribe-in-callback", "plain round before the scenario: " + std::to_string(ra.calls) + "/" + std::to_string(rb.calls) + "/" + std::to_string(rc.calls) + " calls | " + gHist);
+        ra.calls = rb.calls = rc.calls = 0;
+        armed = true;
+        if (!gCaseFailed) level += 1;
+        int eA = 1, eC = victim == 0 ? 0 : 1;
+        if (!gCaseFailed && (ra.calls != eA || rb.calls != 1 || rc.calls != eC))
+            fail("notified-after-unsubscribe", "unsubscribe-in-callback", "the round in which the unsubscribe happened called first/actor/last " + std::to_string(ra.calls) + "/" + std::to_string(rb.calls) + "/" + std::to_string(rc.calls) + " time(s), expected " + std::to_string(eA) + "/1/" + std::to_string(eC) + " | " + gHist);
+        ra.calls = rb.calls = rc.calls = 0;
+        if (!gCaseFailed) ++level;
+        eA = victim == 0 ? 1 : 0; eC = victim == 0 ? 0 : 1;
+        if (!gCaseFailed && (ra.calls != eA || rb.calls != 1 || rc.calls != eC || (eC && rc.last != 3) || (eA && ra.last != 3) || level.value() != 3))
+            fail("notified-after-unsubscribe", "unsubscribe-in-callback", "the following round called first/actor/last " + std::to_string(ra.calls) + "/" + std::to_string(rb.calls) + "/" + std::to_string(rc.calls) + " time(s), expected " + std::to_string(eA) + "/1/" + std::to_string(eC) + " | " + gHist);
+        C.ops += 3;
+        ++C.unsubscribeInCallbackRuns;
+    }
+    ++C.histories;
+    ++C.typeCount["int, fixed-answer scenario"];
+    if (!gCaseFailed) {
+        ++C.nontrivialCases;
+        rt::Hash h;
+        for (char c : gHist) h.add((uint64_t) c);
+        C.fps.push_back(h.get());
+    }
+}
+
 } // namespace
 
 int main(int argc, char **argv) {
@@ -360,6 +481,7 @@ int main(int argc, char **argv) {
         gCaseFailed = false;
         int steps = (int) (rng.chance(250) ? rng.range(1, 10) : rng.range(10, maxSteps));
         uint64_t s = rng.next();
+        if (rng.chance((unsigned) rt::optInt("special", 6))) { runSpecialCase(rng); continue; }
         if (rng.chance(120)) { runClampCase(s, steps); continue; }
         switch (rng.below(6)) {
             case 0: runCase<int, std::equal_to<int>, true>(s, steps, "int"); break;
@@ -373,7 +495,7 @@ int main(int argc, char **argv) {
     rt::dumpFingerprints(C.fps);
     rt::finish(rt::Json().kv("engine", "h_observable").kv("histories", C.histories).kv("ops", C.ops).kv("changingOps", C.changed)
                    .kv("nonChangingOps", C.unchanged).kv("subscriberCalls", C.calls).kv("subscribes", C.subs).kv("unsubscribes", C.unsubs)
-                   .kv("eqEqualButDifferentAssignments", C.eqEqualButDifferent).kv("observablesMovedBeforeUse", C.movedBeforeUse).kv("reentrantClampHistories", C.clampHistories).kv("reentrantCorrections", C.clampCorrections).kv("nontrivialCases", C.nontrivialCases)
+                   .kv("eqEqualButDifferentAssignments", C.eqEqualButDifferent).kv("observablesMovedBeforeUse", C.movedBeforeUse).kv("reentrantClampHistories", C.clampHistories).kv("reentrantCorrections", C.clampCorrections).kv("longLifeCycles", C.longLifeCycles).kv("throwingSubscriberRuns", C.throwingSubscriberRuns).kv("unsubscribeInCallbackRuns", C.unsubscribeInCallbackRuns).kv("nontrivialCases", C.nontrivialCases)
                    .raw("opCount", rt::jsonCounts(C.opCount)).raw("types", rt::jsonCounts(C.typeCount)).raw("samples", rt::jsonArray(C.samples, false)));
     return 0;
 }
